@@ -10,7 +10,8 @@ RULE = ("per registered scheme: seeded well-formed ranges (patterns accepted by 
         "over the operation alphabet {print+parse, permute+rebuild, simplify, validate, invert twice, parse with simplify and "
         "validate flags}; after EVERY step the membership vector of the real range over probes at, around and between all "
         "constraint versions is compared with the spec `denote` of the ORIGINAL range (Lean driver), and the canonical text must "
-        "stop changing after the first simplification; non-trivial = walk of length >= 3 on a range of >= 2 constraints")
+        "stop changing after the first simplification; the constraint tuple after EVERY step is compared with the state of the Lean '
+        "state machine `C17.run` (driver `hist`), which is what the theorems are about; non-trivial = walk of length >= 3 on a range of >= 2 constraints")
 ASSUMPTIONS = ["lawful operators per scheme (C02)", "well-formed start range; version texts without vers delimiters"]
 
 OPS = ["print+parse", "permute+rebuild", "simplify", "validate", "invert-twice", "parse-flags"]
@@ -35,9 +36,13 @@ def _apply(op, r, rcls, rng):
             return r
         j = i.invert()
         return r if j is None else j
-    if op == "parse-flags":
-        return VersionRange.from_string(str(r), simplify=rng.random() < 0.7, validate=rng.random() < 0.7)
+    if op.startswith("parse-flags"):
+        return VersionRange.from_string(str(r), simplify=op[-2] == "1", validate=op[-1] == "1")
     raise AssertionError(op)
+
+
+MODEL_OP = {"print+parse": "pp", "permute+rebuild": "pr:rev", "simplify": "simp:rot", "validate": "val", "invert-twice": "inv2",
+            "parse-flags00": "pf00:id", "parse-flags01": "pf01:id", "parse-flags10": "pf10:rev", "parse-flags11": "pf11:rot"}
 
 
 def correspondence(ctx):
@@ -72,6 +77,7 @@ def correspondence(ctx):
         good = good[:walks]
         dl = ["denote %s %d" % (B.cons_line(c), x) for c in good for x in range(0, 11)]
         den = dict(zip(dl, common.run_model(dl)))
+        pending = []
         for cons in good:
             m = bench.mapping(11, rng)
             texts_ok = all(t.isascii() and not any(ch in t for ch in "|\\'\" \t\n") and t[0] not in "<>=!*vV" for t, _ in m)
@@ -88,6 +94,9 @@ def correspondence(ctx):
             n = rng.randint(1, maxlen)
             ctx.count(stream, key=(tuple(cons), n), nontrivial=(n >= 3 and len(cons) >= 2))
             plan = [rng.choice(OPS) for _ in range(n)] + ["simplify", rng.choice(OPS), "simplify"]
+            plan = [(op + rng.choice(["00", "01", "10", "11", "11"])) if op == "parse-flags" else op for op in plan]
+            inv = B.Inv(m)
+            states = []
             for op in plan:
                 hist.append(op)
                 try:
@@ -97,6 +106,10 @@ def correspondence(ctx):
                     if got != want:
                         x = next(i for i in range(11) if got[i] != want[i])
                         why = "after %s: membership of %s is %s, the original range says %s" % (hist, m[x][0], got[x], want[x])
+                    try:
+                        states.append("ok:" + B.cons_line(B.canon_cons(r.constraints, inv)))
+                    except B.ForeignVersion:
+                        states.append("foreign")
                     text = str(r)
                     if op in ("simplify",) or (op == "parse-flags" and simplified_text is None and False):
                         if simplified_text is None:
@@ -109,5 +122,17 @@ def correspondence(ctx):
                     ctx.disagree(stream, "walk %s %s" % (B.cons_line(cons), hist), why, "stable meaning", True,
                                  dict(B.describe(bench, cons, m), history=hist, clause=why), spec="stable meaning")
                     break
+            else:
+                pending.append((cons, plan, states, m))
+        # the model's state machine (`C17.run`, what the theorems are about) against the real states, step by step
+        lines = ["hist %s %s" % (B.cons_line(sorted(c, key=lambda t: t[1])), ",".join(MODEL_OP[o] for o in plan)) for c, plan, _, _ in pending]
+        for (cons, plan, states, m), ans in zip(pending, common.run_model(lines) if lines else []):
+            ctx.count(stream + ":states", key=(tuple(cons), tuple(plan)), nontrivial=len(cons) >= 2)
+            model_states = ans.split(";")
+            if model_states != states:
+                k = next((i for i, (a, b) in enumerate(zip(states, model_states)) if a != b), min(len(states), len(model_states)))
+                ctx.disagree(stream + ":states", "hist %s %s" % (B.cons_line(cons), plan[:k + 1]),
+                             states[k] if k < len(states) else "-", model_states[k] if k < len(model_states) else "-", False,
+                             dict(B.describe(bench, cons, m), history=plan[:k + 1]))
         if name == "npm":
             ctx.sample({"scheme": name, "operations": OPS})
